@@ -165,9 +165,27 @@ def payload_obj(rep, rpcid=None):
     return mk
 
 
+def payload_via_init(prog, version_input, config_version=2.0, rpcid=None):
+    """factory of Payload objects built by abstractly evaluating Payload.__init__(rpcid, version, config)"""
+    finit = prog.func("jsonrpc", "Payload.__init__")
+
+    def mk():
+        o = shape.Obj("Payload", {})
+        ev = shape.Evaluator(prog, "jsonrpc", lenient=True)
+        res = ev.run(finit, {"rpcid": rpcid if rpcid is not None else shape.Sym("rpcid", truthy=True),
+                             "version": shape.K(version_input),
+                             "config": shape.Opaque("Config", {"version": shape.K(config_version)})}, o)
+        if len(res) != 1 or res[0][1][0] != "return":
+            raise AnalysisError("Payload.__init__ could not be evaluated for version %r: %r" % (version_input, res[:1]))
+        return o
+    return mk
+
+
 def eval_payload(prog, method, rep, args, rpcid=None):
     fi = prog.func("jsonrpc", "Payload." + method)
     ev = shape.Evaluator(prog, "jsonrpc")
+    if isinstance(rep, tuple):       # (version argument, config version): go through the constructor
+        return fi, ev.run(fi, dict(args), payload_via_init(prog, rep[0], rep[1], rpcid))
     return fi, ev.run(fi, dict(args), payload_obj(rep, rpcid))
 
 
@@ -191,11 +209,14 @@ def check_envelopes(ck, rule, prog, builders):
     """Evaluate Payload builders per version representative and compare key sets with spec.ENVELOPES."""
     version_regions(prog)     # anchor: the builders still compare self.version with constants
     # representatives of the two regions the property speaks about (versions 1.0 and 2.0 after float())
-    reps = {"v1": [1.0], "v2": [2.0]}
+    # each representative is (version argument, Config.version) handed to Payload.__init__: floats, integers,
+    # strings, and None (= taken from the configuration, itself float or integer)
+    reps = {"v1": [(1.0, 2.0), (1, 2.0), ("1.0", 2.0), (None, 1.0), (None, 1)],
+            "v2": [(2.0, 2.0), (2, 2.0), ("2.0", 2.0), (None, 2.0), (None, 2)]}
     n = 0
     for b in builders:
         for region in ("v1", "v2"):
-            for rep in sorted(set(reps[region])):
+            for rep in reps[region]:
                 if b in ("request", "notify"):
                     cases = [("params", shape.Sym("params", truthy=True)), ("noparams", shape.K(None)),
                              ("noparams", shape.L([]))]
@@ -205,12 +226,12 @@ def check_envelopes(ck, rule, prog, builders):
                         want = spec.ENVELOPES[(b, region, ptag)]
                         for (_tr, out) in res:
                             n += 1
-                            _cmp(ck, rule, fi, "%s[version=%s,%s]" % (b, rep, ptag), out, want, region, b)
+                            _cmp(ck, rule, fi, "%s[version=%r,%s]" % (b, rep, ptag), out, want, region, b)
                 elif b == "response":
                     fi, res = eval_payload(prog, b, rep, {"result": shape.Sym("result")})
                     for (_tr, out) in res:
                         n += 1
-                        _cmp(ck, rule, fi, "response[version=%s]" % rep, out, spec.ENVELOPES[("response", region)], region, b)
+                        _cmp(ck, rule, fi, "response[version=%r]" % (rep,), out, spec.ENVELOPES[("response", region)], region, b)
                 elif b == "error":
                     for (dtag, dval) in (("data=None", shape.K(None)), ("data", shape.Sym("data", truthy=True)),
                                          ("data falsy", shape.K(0))):
@@ -219,7 +240,7 @@ def check_envelopes(ck, rule, prog, builders):
                                                               "data": dval})
                         for (_tr, out) in res:
                             n += 1
-                            _cmp(ck, rule, fi, "error[version=%s,%s]" % (rep, dtag), out,
+                            _cmp(ck, rule, fi, "error[version=%r,%s]" % (rep, dtag), out,
                                  spec.ENVELOPES[("error", region)], region, b, dtag)
     return n
 
